@@ -42,7 +42,7 @@ def _tasks():
     return tasks
 
 
-def plan(tier, seed):
+def _plan_core(tier, seed):
     n = 4 if tier == "quick" else 16
     tasks = sorted(_tasks(), reverse=True)
     bins = [[0, []] for _ in range(n)]
@@ -210,6 +210,81 @@ def _check_proxy_domain(res, mm, sc, T, cname, unit, via_file, full, history):
     res.evaluations += n
     res.distinct += n
     res.count("proxy_pairs_checked", n)
+    # the bytes: what the SYNTH writer and the PROJECT writer put into the controller's CVAL chunk, read back without rv
+    import struct
+    import rv.api as api
+    from .. import iffparse, workload
+    sample_vals = [dom[0], dom[-1], dom[len(dom) // 2]]
+    holder = None
+    for ctx in ("synth", "project"):
+        if ctx == "project":
+            if mm.parent is None:
+                holder = api.Project()
+                holder.attach_module(mm)
+            else:
+                holder = mm.parent
+        for v in sample_vals:
+            want = sc.stored(v, unit)
+            mm.set_raw("user_defined_1", want)
+            raw = api.Synth(mm).read() if ctx == "synth" else holder.read()
+            chunks = iffparse.parse(raw)
+            # CVALs of the MetaModule's own block: in a project file, the block whose STYP is MetaModule and that is not nested
+            cvals, inside = [], False
+            for cid, pl, *_ in chunks:
+                if cid == b"STYP":
+                    inside = pl.rstrip(b"\0") == b"MetaModule"
+                    if inside:
+                        cvals = []
+                elif cid == b"CVAL" and inside:
+                    cvals.append(struct.unpack("<i", pl)[0])
+                elif cid == b"SEND" and inside and cvals:
+                    break
+            res.count("proxy_cval_bytes_checked")
+            if len(cvals) < 6 or cvals[5] != want:
+                res.violation(f"C10:proxy-bytes:{ctx}:{sc.kind}:{T}.{cname}", f"user-defined controller mapped on {T}.{cname} holding {v!r}: the {ctx} writer stores {cvals[5] if len(cvals) > 5 else None}, documented stored form {want} "
+                                                                            f"(via_file={via_file}, history={history}, unit={unit})", {"type": T, "controller": cname, "value": _val(v), "ctx": ctx})
+                return
+            back = workload.load(raw)
+            got = (back.module if ctx == "synth" else back.modules[mm.index]).user_defined_1
+            if _val(got) != _val(v):
+                res.violation(f"C10:proxy-file:{ctx}:{sc.kind}:{T}.{cname}", f"user-defined controller mapped on {T}.{cname} holding {v!r} loads back as {got!r} from the {ctx} file", {"type": T, "controller": cname, "value": _val(v), "ctx": ctx})
+                return
+
+
+def reflect_histories(res, tier):
+    """A MultiCtl's own `value` after reflect(): whatever route put the value there (file, set_raw, assignment, reflect with
+    or without sending it out again), its stored form is the value itself."""
+    import random
+    import rv.api as api
+    from .. import workload
+    rng = random.Random(5)
+    for k in range(40 if tier == "quick" else 400):
+        p = api.Project()
+        amp = p.new_module(api.m.Amplifier, volume=rng.randint(0, 1024))
+        mc = p.new_module(api.m.MultiCtl, value=rng.randint(0, 32768), mappings=[(0, 32768, 1, 0, 0, 0, 0, 0)])
+        mc >> amp
+        route = k % 3
+        if route == 1:
+            p = workload.load(p.read())
+            amp, mc = p.modules[1], p.modules[2]
+        elif route == 2:
+            mc.set_raw("value", rng.randint(0, 32768))
+        for step in range(3):
+            amp.volume = rng.randint(0, 1024)
+            prop_ = rng.random() < 0.5
+            mc.reflect(0, propagate=prop_)
+            res.count("reflect_checks")
+            res.case(("reflect", k, step, prop_, route))
+            v, raw = mc.value, mc.get_raw("value")
+            if raw != v:
+                res.violation("C10:encode:MultiCtl.value:after-reflect", f"after reflect(0, propagate={prop_}) (route {('constructed', 'loaded', 'set_raw')[route]}): value reads {v}, stored form {raw}",
+                              {"route": route, "propagate": prop_, "step": step})
+                break
+            q = workload.load(p.read())
+            if q.modules[mc.index].value != v:
+                res.violation("C10:decode:MultiCtl.value:after-reflect", f"after reflect(0, propagate={prop_}): value {v} is saved and loaded as {q.modules[mc.index].value}",
+                              {"route": route, "propagate": prop_, "step": step})
+                break
 
 
 def short_cval_files(res, tier):
@@ -267,6 +342,13 @@ def short_cval_files(res, tier):
 
 
 def run_shard(spec_, res):
+    if spec_.get("part") == "soak":
+        from .. import soak
+        for s_ in spec_["soak_seeds"]:
+            soak.run(res, s_, spec_["tier"], PROPERTY, SOAK_KINDS, spec_["steps"])
+        return
+    if spec_["shard"] == 0:
+        reflect_histories(res, spec_["tier"])
     for T, cname, unit in spec_["tasks"]:
         check_controller(res, T, cname, unit)
         if spec_["tier"] == "thorough" and T != "Output":
@@ -298,3 +380,16 @@ def finalize(merged, tier):
 
 def replay(case, res):
     check_controller(res, case["type"], case["controller"], case.get("unit"), via_clone=case.get("via_clone", False))
+
+
+# ------------------------------------------------------------------ soak slice (rvmon.soak): long mixed histories on an object pool
+SOAK_KINDS = ['encoding']
+
+
+def plan(tier, seed):
+    specs = _plan_core(tier, seed)
+    k = 2 if tier == "quick" else 8
+    for i in range(k):
+        specs.append({"tier": tier, "part": "soak", "soak_seeds": [seed * 100003 + 1000 * i + j for j in range(8 if tier == "quick" else 40)],
+                      "steps": 150 if tier == "quick" else 300, "seed": seed, "shard": 1000 + i, "tasks": []})
+    return specs
